@@ -115,10 +115,11 @@ def project(s1, s2, p, delta=0.0):
     :param delta: Keep delta fraction away from ends
     :return: Point of projection, Relative position on segment
     """
-    if np.isclose(s1[0], s2[0], rtol=0) and np.isclose(s1[1], s2[1], rtol=0):
-        return s1, 0.0
-
     l2 = (s1[0]-s2[0])**2 + (s1[1]-s2[1])**2
+    if l2 == 0:
+        # Zero-length segment. (An absolute tolerance on the coordinates would make the
+        # result depend on the unit of the coordinates.)
+        return s1, 0.0
     t = max(delta, min(1-delta, ((p[0]-s1[0])*(s2[0]-s1[0]) + (p[1]-s1[1])*(s2[1]-s1[1])) / l2))
     return (s1[0] + t * (s2[0]-s1[0]), s1[1] + t * (s2[1]-s1[1])), t
 
